@@ -3,6 +3,7 @@ CONSTANTS K = 1 SendPuncture = TRUE PunctureFirst = TRUE FollowAll = FALSE MaxId
           APlaces = {"nat"} CandPlaces = {"nat"}
           MaxContactsA = 2 MaxContactsB = 2
           MinContacts = 2 MaxRebinds = 1 Clock0 = 65534 Refresh = FALSE Ident16 = TRUE
+          Svcs = {"M"} Phased = FALSE V6N = 0 StyleAware = TRUE SvcWalkable = TRUE
 INVARIANT Reach
 INVARIANT HandsOutCurrent
 INVARIANT HoldsWorking
